@@ -86,6 +86,8 @@ Section Props.
 
   Lemma nil_ok : out_ok [].
   Proof. split; [cbn; lia|left; reflexivity]. Qed.
+  Lemma nil_ok_skip : out_ok [EvSkip].
+  Proof. split; [cbn; lia|left; reflexivity]. Qed.
 
   Lemma resp_type_cases : conn ->
     (ty = NR_CON /\ dp_resp_type req = NR_ACK) \/ (ty = NR_NON /\ dp_resp_type req = NR_NON).
@@ -237,7 +239,7 @@ Section Props.
     - apply (after_handler_ok _ false); [exact Hc|discriminate].
     - apply (after_handler_ok _ (ty =? NR_CON)); [exact Hc|]. intros E. unfold NR_CON in *. lia.
     - apply (after_handler_ok _ false); [exact Hc|discriminate].
-    - apply finish_ok. exact Hc.
+    - destruct (dp_has DP_BLOCK2 (m_opts (sp_req' cfg req))); [apply nil_ok_skip|apply finish_ok; exact Hc].
     - apply (after_handler_ok _ false); [exact Hc|discriminate].
   Qed.
 
@@ -529,15 +531,15 @@ Qed.
 (* the built-in /.well-known/core resource: no application handler, a 2.05 with
    Content-Format 40 and the listing *)
 Theorem wellknown_out : forall cfg h mc req,
-  sp_target cfg req = TWellKnown ->
+  sp_target cfg req = TWellKnown -> dp_has DP_BLOCK2 (m_opts req) = false ->
   sp_handler_out cfg h mc req =
   dp_finish cfg mc (sp_req' cfg req) (Some NR_F_HAS_MCAST) false false
     (mkMsg (dp_resp_type req) 69 (m_mid req) (m_token req) [(DP_CONTENT_FORMAT, [40])]
            (c_wk cfg (dp_query (m_opts req)))).
 Proof.
-  intros cfg h mc req Et. unfold sp_handler_out, dp_invoke. rewrite Et.
+  intros cfg h mc req Et Hb. unfold sp_handler_out, dp_invoke. rewrite Et.
   change (m_opts (sp_req' cfg req)) with (sp_adjusted cfg req).
-  rewrite dp_values_query_adj. reflexivity.
+  rewrite adj_has, Hb. rewrite dp_values_query_adj. reflexivity.
 Qed.
 
 (* the complete output when the handler runs on an ordinary or unknown resource *)
@@ -711,7 +713,7 @@ Example ex_handler_runs :
   [dp_serve ex_cfg ex_handler false (ex_get 0 [97] [])].
 Proof.
   split; [vm_compute; reflexivity|]. split; [vm_compute; reflexivity|].
-  split; [split; [discriminate|intros i; vm_compute; discriminate]|].
+  split; [split; [discriminate|split; [intros i; vm_compute; discriminate|intros H; vm_compute in H; discriminate]]|].
   vm_compute. reflexivity.
 Qed.
 
@@ -912,6 +914,7 @@ Proof.
     + exact (Htail _ false _ _ _ _ Hin).
     + exact (Htail _ (m_type (sp_req' cfg req) =? NR_CON) _ _ _ _ Hin).
     + exact (Htail _ false _ _ _ _ Hin).
-    + exact (Hfin3 _ _ _ _ _ _ _ _ _ _ _ Hin Hrst).
+    + destruct (dp_has DP_BLOCK2 (m_opts (sp_req' cfg req))); [cbn in Hin; contradiction|].
+      exact (Hfin3 _ _ _ _ _ _ _ _ _ _ _ Hin Hrst).
     + exact (Htail _ false _ _ _ _ Hin).
 Qed.
